@@ -362,6 +362,32 @@ def fam_maa_cascade(rng, nmax):
     return funcs, []
 
 
+def fam_rings(rng, nmax):
+    """Several independent feedback rings (every ring is a source SCC of the interaction
+    graph) plus an optional downstream reader of several rings.  With random names the
+    variable indices of a ring are scattered, so whatever orders components by an incidental
+    member or iteration order has something to get wrong."""
+    sizes = []
+    room = max(4, nmax)
+    while room >= 2 and len(sizes) < 3:
+        k = rng.choice([2, 2, 3]) if room >= 3 else 2
+        sizes.append(k)
+        room -= k
+        if len(sizes) >= 2 and rng.random() < 0.3:
+            break
+    funcs = []
+    for k in sizes:
+        base = len(funcs)
+        for i in range(k):
+            src = base + (i - 1) % k
+            funcs.append([[src], [0, 1] if rng.random() < 0.75 else [1, 0]])
+    if room >= 1 and rng.random() < 0.5:
+        k = rng.randint(2, min(3, len(funcs)))
+        regs = sorted(rng.sample(range(len(funcs)), k))
+        funcs.append([regs, [rng.randint(0, 1) for _ in range(1 << k)]])
+    return funcs, []
+
+
 def fam_degenerate(rng, nmax):
     """Edge shapes: one-variable networks, only constants, only inputs, self-loops
     (x = x, x = !x), a single relay chain."""
@@ -386,7 +412,7 @@ def fam_degenerate(rng, nmax):
     return funcs, free
 
 
-FAMILIES = ["sparse", "dense", "canal", "modular", "maa", "cascade", "maa_cascade", "degenerate", "maa_deadpad"]
+FAMILIES = ["sparse", "dense", "canal", "modular", "maa", "cascade", "maa_cascade", "degenerate", "maa_deadpad", "rings"]
 
 
 def gen_network(rng, weights=None, nmin=2, nmax=6, fmts=("bnet", "aeon"), names=None, shuffle_order=False):
@@ -412,6 +438,8 @@ def gen_network(rng, weights=None, nmin=2, nmax=6, fmts=("bnet", "aeon"), names=
         funcs, free = fam_maa_cascade(rng, nmax)
     elif fam == "maa_deadpad":
         funcs, free = fam_maa_deadpad(rng, nmax)
+    elif fam == "rings":
+        funcs, free = fam_rings(rng, nmax)
     elif fam == "cascade":
         funcs, free = fam_cascade(rng, rng.randint(max(nmin, 3), nmax))
     else:
